@@ -1150,7 +1150,12 @@ def with_wf(prop, fn):
     return run
 
 
-MONITORS = {"C01": mon_C01, "C04": mon_C04, "C05": mon_C05, "C06": mon_C06, "C07": mon_C07, "C09": mon_C09, "C10": mon_C10,
+def mon_C03(walk, d):
+    """engine level: a well-formed packet is decoded whatever earlier connections fed the decoder"""
+    return [x for x in mon_C11(walk, d) if x[0] == "conformant-packet-undecodable"]
+
+
+MONITORS = {"C03": mon_C03, "C01": mon_C01, "C04": mon_C04, "C05": mon_C05, "C06": mon_C06, "C07": mon_C07, "C09": mon_C09, "C10": mon_C10,
             "C11": mon_C11, "C14": mon_C14, "C15": mon_C15, "C16": mon_C16, "C17": mon_C17, "C18": mon_C18}
 for _p in WF_FAMILIES:
     if _p in MONITORS:
